@@ -361,6 +361,12 @@ static cJSON *get_item_from_pointer(cJSON * const object, const char * pointer, 
         }
     }
 
+    if (pointer[0] != '\0')
+    {
+        /* a non-empty JSON pointer has to start with '/' */
+        return NULL;
+    }
+
     return current_element;
 }
 
